@@ -1213,7 +1213,8 @@ fn gen_c12(rng: &mut Rng, thorough: bool) -> Case {
         } else {
             None
         };
-        comp_case(rng, "channel", Comp::Chan(ChanCase { cap, producers, close_after, sender_close }))
+        let recv_drop = close_after.is_some() && rng.pct(50);
+        comp_case(rng, "channel", Comp::Chan(ChanCase { cap, producers, close_after, sender_close, recv_drop }))
     }
 }
 fn check_c12(case: &Case, out: &Outcome, h: &Hist, _g: &mut Group) -> Vec<Violation> {
